@@ -151,7 +151,9 @@ ENTRY = {
                                X_vld='f[mv,d]', y_vld='f[mv]',
                                n_max='int:nmax'),
                           dict(X_trn='f[m,d]', y_trn='f[m]', A0='tt',
-                               fh='cb', update_sol=L(True))],
+                               fh='cb', update_sol=L(True)),
+                          dict(X_trn='f[m,d]', y_trn='f[m]', A0='tt',
+                               lamb=L(None))],
     'anova.anova': [dict(I_trn='I[m,d]', y_trn='f[m]', seed='seed'),
                     dict(I_trn='I[m,d]', y_trn='f[m]', order=L(2),
                          r='int:r', seed='seed')],
